@@ -1,3 +1,4 @@
+import Firebolt.Properties.TransBase
 import Firebolt.Spec.Route
 import Firebolt.Generated.Source
 import Firebolt.Expected.Source
@@ -200,6 +201,28 @@ theorem source_ctxConfigureMessaging : GeneratedSrc.ctxConfigureMessaging = Expe
 
 /-! ### influence closure: the pinned functions, and every function of the repository that writes a struct field or package
 variable they read, are unchanged (digests regenerated from /repo on every run; a difference names the functions) -/
+/-! ### The code itself, translated (`Generated/Trans.lean`, rewritten from /repo on every run by extractor/translate.go)
+
+The `translated_*` theorems are about MiniGo terms the translator produced from the current Go source: for every
+environment the translated fragment does what the hand-written model function says.  They are semantic obligations —
+a rewrite that preserves the behaviour keeps them provable, a changed comparison, bound or argument does not. -/
+section Translated
+open Firebolt.MiniGo Firebolt.TransBase
+
+/-- deliverMessageToNode: a node is asked once whether it accepts the type; it receives the message iff it does; a
+failing receipt is recorded; every child is visited regardless -/
+theorem translated_exDeliverToNode (σ : Env) :
+    obs Trans.exDeliverToNode σ =
+      ⟨[("node.NodeProcessor.AcceptsMessage", [σ "msg.MessageType"])] ++
+        (if σ "node.NodeProcessor.AcceptsMessage#0" ≠ 0 then
+          [("node.NodeProcessor.Receive", [σ "msg"])] ++
+            (if σ "node.NodeProcessor.Receive#0" ≠ 0 then [("errorList.addError", [σ "node.NodeProcessor.Receive#0"])] else [])
+         else []) ++
+        [("foreach node.Children: e.deliverMessageToNode", [σ "msg", σ "child", σ "errorList"])], none, false⟩ := by
+  by_cases h1 : σ "node.NodeProcessor.AcceptsMessage#0" = 0 <;> by_cases h2 : σ "node.NodeProcessor.Receive#0" = 0 <;>
+  minigo_simp [Trans.exDeliverToNode, h1, h2]
+end Translated
+
 theorem closure_unchanged : GeneratedClo.C11 = ExpectedClo.C11 := by rfl
 
 end Firebolt.C11
